@@ -99,6 +99,7 @@ TAIL = {
     'modifies': ['options.at_level', 'options.unit', 'options.non_unit', 'options.layer', 'options.keepbytecode'],
     'ensures': [
         "implies(old(options.usecompiled), options.keepbytecode)",                     # C15: --usecompiled implies --keepbytecode
+        "implies(old(options.keepbytecode), options.keepbytecode)",                    # C15: an explicit -k is never switched off
         "implies(old(options.unit) and old(options.non_unit), not options.unit and not options.non_unit)",   # C09: -u -f cancel
         "implies(old(options.unit) != old(options.non_unit), options.unit == old(options.unit) and options.non_unit == old(options.non_unit))",
         "implies(old(options.all), options.at_level == maxsize())",                    # C09: --all
